@@ -104,6 +104,9 @@ func runCheck(id, tier, repo string) (code int) {
 		r.Assume("single build configuration linux/amd64 (the only one that builds); int is 64 bit",
 			"test files, package main tools and //go:build ignore generators are out of scope")
 		pd.fn(p, r)
+		if tier == "thorough" {
+			selfTest(r, id, repo)
+		}
 	}()
 	return r.finish()
 }
